@@ -43,6 +43,7 @@ ASSUMPTIONS = [
     'src_ledger.py) are trusted; summarize.open_opt/close_opt/clear_opt are opaque: assumed to return (operation applied '
     'to the entries, index) [summarize_ok]; isinstance(x, datetime.date) is Model/PrimsLedger.v isinstance; the table '
     'attributes are open: date|None, close: date|True|None, clear: True|None (checked on the parser output on every run)',
+    'translator tie of the statement level (bld-compiler3; C13_source_compile_from*; Gen/SrcFrom.v regenerated from compiler.py on every run): trusted in addition to the C05_source_* base: translator rules K12-K14 of harness/vf/src_compiler.py - K12 STATE THREADING: a call `x = self.m(..)` of a Compiler method that may assign self.table (the set of such attributes and methods is recomputed from the live class by threading_info and emitted next to the terms; the proofs check it is ["table"]) is read as `self.table, x = self.m(self.table, ..)`, i.e. an opaque callable that receives the table and returns the table it leaves behind next to its value; such a call anywhere else than as the whole right-hand side of an assignment is rejected; K13 set(..)/set comparison as order-insensitive list operations; K14 the leading constant of \'..{}\'.format(..) selects the exception kind - and the encodings of coq/Model/PrimsSelect.v: a table is any value with hasattr(t,\'update\') / t.update(open=,close=,clear=) uninterpreted, EvalQuery / EvalPivot are records of their constructor arguments, str.format/join are uninterpreted text; the receiver\'s attributes are a concrete prefix (its table and its methods as opaque callables) followed by an arbitrary rest; what the opaque callables return is a hypothesis of each theorem (the model\'s value; for C08_source_table_restored: ANY table and any well-shaped result)',
 ]
 
 ROOTS = ['Assets', 'Equity', 'Expenses', 'Income', 'Liabilities']
@@ -1262,6 +1263,8 @@ def generate():
     """translator tie: regenerate coq/Gen/SrcLedgerPrepare.v from the source of the imported BeanTable.prepare"""
     from . import gen_src
     out = gen_src.generate('ledger_prepare')
+    # bld-compiler3: Compiler._compile_from -> coq/Gen/SrcFrom.v (C13_source_compile_from*, Proofs/SrcFrom.v)
+    out.update(gen_src.generate('from'))
     out['src_ledger_prepare_clause_values'] = _clause_value_census()
     return out
 
